@@ -764,6 +764,28 @@ def State.undelegateCascade (s : State) (parent child : Nat) : State × Resp :=
   let s1 := r.2.foldl State.dropRecord { s with delegs := r.1 }
   (s1.persistDelegs.persistTtl, .pairs (r.2.map fun d => (d.parent, d.child)))
 
+/-- NOT the code — a variant kept for a negative control (`Props.cascade_visited_agents_leaves_delegation_witness`):
+    `revoke_cascading` with a set of visited AGENTS, consulted before each record `current → c` is revoked
+    ("each agent is expanded at most once").  A record into an agent that was already reached through another
+    record is skipped: it is neither removed nor reported, so the edges it created are never deleted.
+    `seen` starts as `[child]`; within one `current` the records are visited in list order. -/
+def cascadeVisitedAgents : Nat → List Nat → List Nat → List DelegRec → List DelegRec → List DelegRec × List DelegRec
+  | 0, _, _, ds, acc => (ds, acc)
+  | _ + 1, [], _, ds, acc => (ds, acc)
+  | fuel + 1, cur :: q, seen, ds, acc =>
+    let r := (ds.filter (·.parent = cur)).foldl
+      (fun (st : List Nat × List DelegRec) d => if st.1.contains d.child then st else (st.1 ++ [d.child], st.2 ++ [d]))
+      (seen, [])
+    cascadeVisitedAgents fuel (q ++ r.2.map (·.child)) r.1 (ds.filter (fun d => !r.2.contains d)) (acc ++ r.2)
+
+/-- NOT the code: `revoke_delegation_cascading` over `cascadeVisitedAgents` -/
+def State.undelegateCascadeVisitedAgents (s : State) (parent child : Nat) : State × Resp :=
+  let first := s.delegs.filter (fun d => d.parent = parent && d.child = child)
+  let ds0 := s.delegs.filter (fun d => !(d.parent = parent && d.child = child))
+  let r := cascadeVisitedAgents (s.delegs.length + 1) [child] [child] ds0 first
+  let s1 := r.2.foldl State.dropRecord { s with delegs := r.1 }
+  (s1.persistDelegs.persistTtl, .pairs (r.2.map fun d => (d.parent, d.child)))
+
 /-- the process ends and `Vault::new` runs over the same store and graph: `GrantTTLTracker::load` and
     `DelegationManager::load` read the persisted copies, then `cleanup_expired_grants()` -/
 def State.reopen (s : State) (now : Nat) : State × Resp :=
